@@ -251,19 +251,25 @@ CLAIMED["C15"] = (
     "are re-read (an unused style keeps only what the file stores for it)",
     "DESIGN.md §4 C15")
 CLAIMED["C09"] = (
-    "TLC model checking of Refs.tla (namespaces of sheets and table names, the qualifier reading rules, the prefix chooser of expand_ref; "
-    "ExactlyTheTarget on every namespace, mutant refuted); every TLC namespace built through the API with stored references injected as real "
-    "AST nodes, printed by Cell.formula on the open document and after save/reopen, judged by TLC (Trace_Refs)",
+    "TLC model checking of Refs.tla (namespaces of sheets and table names, the qualifier reading rules, the prefix chooser of expand_ref, table "
+    "renames; ExactlyTheTarget on every namespace, mutants refuted) and RefLabels.tla (header labels: what a printed label reference denotes, "
+    "the scope chooser; three mutants refuted); every TLC namespace / labelling built through the API with stored references injected as real "
+    "AST nodes, printed by Cell.formula on the open document, after a rename and after save/reopen, judged by TLC (Trace_Refs, Trace_RefLabels)",
     "Refs.tla states how a printed qualifier is read with the document's own names (none: the host table; T:: the table T of the host sheet, "
     "else the tables named T anywhere; S::T:: that table) and checks that the library's prefix choice resolves to exactly the stored target for "
-    "every assignment of table names to 1..3 sheets x 1..2 tables, every host and target; dropping the sheet prefix for a shared name is refuted. "
+    "every assignment of table names to 1..3 sheets x 1..2 tables, every host and target, before and after any legal table rename; dropping the "
+    "sheet prefix for a shared name and a stale unique-name cache are refuted. "
     "For each namespace (and seeded larger ones) cell, rectangle, row-span and column-span references with every absolute/relative combination "
     "are injected at varying host cells (cross-table ones with the target's UUID); the printed text is split into qualifiers and body, and TLC "
     "checks the body against the stored ends resolved from the host cell ('$' exactly on the absolute ends, ends not swapped) and resolves the "
-    "qualifiers in the namespace the library reports.",
-    "TLC/SANY; tables without header rows/columns (A1 bodies); header-label bodies and their scoping are not judged (see DESIGN.md); mixed "
-    "absolute/relative range ends stored as the library's reader and writer agree",
-    "DESIGN.md §4 C09")
+    "qualifiers in the namespace the library reports. RefLabels.tla adds header labels (per table 3 lines labelled x / y / empty, unique or "
+    "repeated within the table, sheet or document): a printed label reference must denote exactly the stored lines of the stored table; every "
+    "TLC case (<= 2 tables exhaustively, <= 3 tables model-checked, larger ones seeded) is built with real header rows or columns and single-line "
+    "and span references, and TLC judges each printed text with the labels the document reports (Level A) and against the modelled chooser (drift).",
+    "TLC/SANY; label references: one labelled axis per document, text labels, a label repeated on its table's axis names nothing and a span names "
+    "lines of one table carrying both labels (Numbers' conventions as seen in tests/data/create-formulas.numbers); mixed absolute/relative range "
+    "ends stored as the library's reader and writer agree",
+    "DESIGN.md §4 C09, Part I")
 NOT_YET = "check not built yet in this round (planned: see DESIGN.md section for this property)"
 NA = {}
 
